@@ -70,6 +70,21 @@ func (fs DirFs) Open(dir, fname string) File {
 }
 
 func (fs DirFs) ReadAt(f File, offset uint64, length uint64) []byte {
+	// Only the bytes of [offset, offset+length) that exist are returned, so the
+	// range is cut down to the file first: an offset or an end beyond what
+	// pread's signed arguments can express would be refused by the kernel, and
+	// the buffer need not be larger than the file.
+	var st unix.Stat_t
+	if err := unix.Fstat(f.fd(), &st); err != nil {
+		panic(err)
+	}
+	size := uint64(st.Size)
+	if offset >= size {
+		return []byte{}
+	}
+	if length > size-offset {
+		length = size - offset
+	}
 	p := make([]byte, length)
 	n, err := unix.Pread(f.fd(), p, int64(offset))
 	if err != nil {
